@@ -683,6 +683,30 @@ def cached_dataset_class_items(rng, n) -> List[Item]:
     return items
 
 
+def equal_but_different_dict_items(rng, n) -> List[Item]:
+    """dictionaries that compare EQUAL as Python dicts but are different dictionaries (`1` / `True`, `0` / `False` under
+    some key) select different branches — hence different key sets — of a long-lived graph: each evaluation returns
+    the value of its own dictionary, whatever equal-looking dictionary was seen just before"""
+    items = []
+    for i in range(n):
+        P = Prog()
+        a, b = ((True, 1), (1, True), (0, False), (False, 0))[i % 4]
+        br = P.bind(P.option("A"), [(a, P.option("X")), (b, P.option("Y"))], P.value("other"))
+        inner = P.dataset([("v", br)]) if i % 2 else P.cached(br)
+        root = P.dataset([("d", inner), ("z", P.option("Z", dflt=P.value(0)))])
+        seq = [{"A": a, "X": "x1", "Y": "y1"}, {"A": b, "X": "x1", "Y": "y1"}, {"A": a, "X": "x1", "Y": "y2"}, {"A": b, "X": "x1", "Y": "y2"},
+               {"A": b, "X": "x2", "Y": "y2"}, {"A": a, "X": "x2", "Y": "y2"}]
+        pairs, ke = [], []
+        for o in seq:
+            P.op("keys", root, o)
+            P.evaluate(root, o)
+            P.evaluate(root, o, cache_off=True)
+            pairs.append((len(P.ops) - 2, len(P.ops) - 1))
+            ke.append((len(P.ops) - 3, len(P.ops) - 2))
+        items.append((P.to_json(), {"pairs": pairs, "ke": ke, "root": root}))
+    return items
+
+
 def c01_programs(rng, tier) -> List[Item]:
     items = corpus_items("C01")
     cfg = Cfg(raising=False)
@@ -692,7 +716,15 @@ def c01_programs(rng, tier) -> List[Item]:
     items += cached_namespace_items(rng, sizes(tier, 18, 90))
     items += function_slot_items(rng, sizes(tier, 24, 96))
     items += cached_dataset_class_items(rng, sizes(tier, 18, 90))
+    items += equal_but_different_dict_items(rng, sizes(tier, 16, 48))
     return items
+
+
+def _construction_ops(prog):
+    """the construction steps of a program (derivations, registrations, added effects …): a follow-up program on the
+    same graph starts with them"""
+    return [copy.deepcopy(op) for op in prog.get("ops", [])
+            if op.get("op") in ("with_options", "register", "add_effect", "set_dispatch", "set_cache", "effects_disabled")]
 
 
 def c01_phase2(items, impl, model, rng, tier) -> List[Item]:
@@ -721,7 +753,7 @@ def c01_phase2(items, impl, model, rng, tier) -> List[Item]:
         o = prog["ops"][i]["o"]
         n = prog["ops"][i]["n"]
         p2 = copy.deepcopy(prog)
-        p2["ops"] = []
+        p2["ops"] = _construction_ops(prog)
         pairs = []
         variants = []
         for k in rng.sample(reads, min(3, len(reads))):
@@ -1299,7 +1331,7 @@ def c03_phase2(items, impl, model, rng, tier) -> List[Item]:
             continue
         root = meta["root"]
         p2 = copy.deepcopy(prog)
-        p2["ops"] = []
+        p2["ops"] = _construction_ops(prog)
         checks = []
         for ki, ei in meta["ke"]:
             K = keyset(a[ki]) if ki < len(a) else None
@@ -2759,7 +2791,7 @@ def shared_upstream_items(rng, n) -> List[Item]:
         if shape == 0:
             v1, v2 = P.derive(up, {"SRC": "csv"}), P.derive(up, {"SRC": "db"})
             root = P.dataset([("x", v1), ("y", v2)])
-            P.node(root)["lazy"] = True       # (defined after the derivations it depends on)
+            P.after_ops(root)       # (defined after the derivations it depends on)
         elif shape == 1:
             root = P.dataset([("x", P.with_options(up, {"SRC": "csv"})), ("y", P.with_options(up, {"SRC": "db"})), ("z", up)])
         elif shape == 2:
@@ -3784,6 +3816,10 @@ def front_cache_items(rng, n) -> List[Item]:
         root = P.cached(inner, c) if i % 4 != 3 else P.dataset([("v", inner)], cache=c)
         recs = []
         seq = [{"A": 1}, {"A": 2}, {"A": 1, "B": 5}, {"A": 3}, {"A": 2}, {"A": 3, "B": 1}]
+        if i % 2:
+            # (values that are not JSON — a set, a tuple — under keys nothing reads: they are part of the dictionary the
+            # backend is handed, and of nothing the result depends on)
+            seq = [dict(o, ZSET={"$": "set", "v": [1, 2]}, ZT={"$": "tuple", "v": [1, [2]]}) for o in seq]
         for k, o in enumerate(seq):
             script = [["behave"], ["lieExists"], ["behave", "failGet"], ["lieExists", "behave"], ["miss"], ["lieExists"]][(k + i) % 6]
             P.raw_op(op="script", cache=c, faults=script)
